@@ -256,7 +256,9 @@ def run(ctx: RuleContext, p: Program) -> None:
     ctx.try_rule(grammar_rules.rule_op_table, p, 'OP-TABLE')
     ctx.try_rule(grammar_rules.rule_gram_chain, p, 'GRAM-CHAIN')
     ctx.try_rule(rule_op_pair, p, 'OP-PAIR')
-    ctx.try_rule(rule_op_level, p, 'OP-LEVEL')
+    # OP-LEVEL (shape comparison of the level coercions) was replaced by the evaluation OP-SEM after the fourth batch of rewrites
+    from . import opsem
+    ctx.try_rule(opsem.rule_op_sem, p, 'OP-SEM')
     ctx.try_rule(rule_op_own, p, 'OP-OWN')
     from . import round4
     ctx.try_rule(round4.rule_set_covers, p, 'SET-COVERS')
